@@ -35,39 +35,20 @@ Theorem C12_risk_admin_frame : forall g signer w w',
   (flag_set (pb_flags (px_bank w)) TOKENLESS_REPAYMENTS_ALLOWED = false -> px_bank w' = px_bank w).
 Proof. exact risk_admin_frame. Qed.
 
-(* emissions admin: everything but the flag word, for all arguments *)
-Theorem C12_emissions_admin_frame_modulo_flags : forall g signer w ix w',
+(* emissions admin: emissions rate, mint, remaining amount and the two emissions flags (bits 1 | 2 = 3 of the
+   flag word), for ALL arguments incl. all flag words; the tokens it moves go from its funding account to the
+   bank's emissions vault *)
+Theorem C12_emissions_admin_frame : forall g signer w ix w',
   is_emissions_ix ix = true -> pstep g signer w ix = Ok w' ->
-  signer = REmissionsAdmin /\ erase_emissions_and_flags (px_bank w') = erase_emissions_and_flags (px_bank w) /\
+  signer = REmissionsAdmin /\ erase_emissions (px_bank w') = erase_emissions (px_bank w) /\
   outside_emissions w' = outside_emissions w.
-Proof. exact emissions_admin_frame_modulo_flags. Qed.
+Proof. exact emissions_admin_frame. Qed.
 
-(* ... and the flag word too when the word written agrees with the bank's non-emissions bits
-   (update: ldiff x 3 = ldiff flags 3; setup: the bank has no other flag set) *)
-Theorem C12_emissions_admin_frame_restricted : forall g signer w ix w',
-  is_emissions_ix ix = true -> keeps_foreign_flags (px_bank w) ix -> pstep g signer w ix = Ok w' ->
-  erase_emissions (px_bank w') = erase_emissions (px_bank w).
-Proof. exact emissions_admin_frame_restricted. Qed.
-
-(* finding F1 (key emissions-admin-changes-foreign-flags) *)
-Theorem C12_emissions_update_foreign_flags_refuted :
-  (exists w w', pstep wit_caps REmissionsAdmin w (PUpdateEmissions (Ok tt) 1 (Some 0) None None) = Ok w' /\
-     pb_flags (px_bank w) = Z.lor FREEZE_SETTINGS CLOSE_ENABLED_FLAG /\ pb_frozen (px_bank w) = true /\
-     pb_frozen (px_bank w') = false /\ flag_set (pb_flags (px_bank w')) CLOSE_ENABLED_FLAG = false) /\
-  (exists w w', pstep wit_caps REmissionsAdmin w (PUpdateEmissions (Ok tt) 1 (Some 127) None None) = Ok w' /\
-     pb_flags (px_bank w) = CLOSE_ENABLED_FLAG /\
-     pb_frozen (px_bank w') = true /\
-     flag_set (pb_flags (px_bank w')) PERMISSIONLESS_BAD_DEBT_SETTLEMENT_FLAG = true /\
-     flag_set (pb_flags (px_bank w')) TOKENLESS_REPAYMENTS_ALLOWED = true /\
-     flag_set (pb_flags (px_bank w')) TOKENLESS_REPAYMENTS_COMPLETE = true).
-Proof. exact emissions_update_foreign_flags_refuted. Qed.
-
-(* finding F2 (key setup-emissions-clears-flags) *)
-Theorem C12_emissions_setup_clears_flags_refuted :
-  exists w w', pstep wit_caps REmissionsAdmin w (PSetupEmissions 1 EMISSIONS_FLAG_LENDING_ACTIVE 1000 500) = Ok w' /\
-     pb_flags (px_bank w) = Z.lor FREEZE_SETTINGS CLOSE_ENABLED_FLAG /\ pb_frozen (px_bank w) = true /\
-     pb_flags (px_bank w') = EMISSIONS_FLAG_LENDING_ACTIVE /\ pb_frozen (px_bank w') = false.
-Proof. exact emissions_setup_clears_flags_refuted. Qed.
+(* a flag word with any bit outside EMISSION_FLAGS = 3 is refused by both emissions instructions *)
+Theorem C12_emissions_foreign_flags_rejected : forall g signer w w',
+  (forall ac mint x orate oadd, pstep g signer w (PUpdateEmissions ac mint (Some x) orate oadd) = Ok w' -> Z.land x 3 = x) /\
+  (forall mint x rate total, pstep g signer w (PSetupEmissions mint x rate total) = Ok w' -> Z.land x 3 = x).
+Proof. exact emissions_foreign_flags_rejected. Qed.
 
 (* the group admin's configure_bank writes, of the flag word, only bits 4 | 8 | 32 = 44
    (permissionless bad debt, freeze, tokenless repayments allowed), and nothing of emissions / e-mode *)
@@ -91,18 +72,10 @@ Theorem C12_frozen : forall g signer w ix w',
   erase_dep_bor (px_bank w') = erase_dep_bor (px_bank w) /\ outside w' = outside w.
 Proof. exact frozen_only_limits. Qed.
 
-(* nobody lifts the freeze: any sequence of the modelled instructions by any signers, as long as no
-   emissions instruction writes a flag word without the freeze bit (F1, F2) *)
-Theorem C12_freeze_sticky_restricted : forall g w l,
-  pb_frozen (px_bank w) = true ->
-  (forall s ix, In (s, ix) l -> writes_flags_without_freeze ix = false) ->
-  pb_frozen (px_bank (prun g w l)) = true.
-Proof. exact freeze_sticky_restricted. Qed.
-
-Theorem C12_freeze_sticky_refuted :
-  exists g w l, pb_frozen (px_bank w) = true /\ pb_frozen (px_bank (prun g w l)) = false /\
-                (l = [(REmissionsAdmin, PSetupEmissions 1 0 0 0)] \/ exists x, l = [(REmissionsAdmin, PUpdateEmissions (Ok tt) 1 (Some x) None None)]).
-Proof. exact freeze_sticky_refuted. Qed.
+(* nobody lifts the freeze: any sequence of the modelled instructions, any arguments, any signers *)
+Theorem C12_freeze_sticky : forall g w l,
+  pb_frozen (px_bank w) = true -> pb_frozen (px_bank (prun g w l)) = true.
+Proof. exact freeze_sticky. Qed.
 
 Theorem C12_unauthorized_signer_rejected : forall g signer w ix w',
   pstep g signer w ix = Ok w' -> accepted_signers ix = [] \/ In signer (accepted_signers ix).
@@ -124,11 +97,12 @@ Theorem C12_deleverage_only_risk_admin : forall w c a r signs steps x,
   dv_tx w c a r signs steps = Ok x -> signs = true.
 Proof. exact deleverage_only_risk_admin. Qed.
 
-(* the daily window: limit configured (<> 0) and below u32::MAX, every withdrawal worth less than 2^32 dollars:
-   after ANY list of withdrawals (any timestamps) the whole dollars accepted since the last reset are <= limit *)
+(* the daily window: with a limit configured (<> 0; it is a u32), after ANY list of withdrawals (any values,
+   any timestamps) the whole dollars accepted since the last reset are <= limit.  WInv is the ghost invariant
+   "the cache holds the whole dollars of the accepted withdrawals since the last reset, and is >= 0"; it holds
+   for a fresh window and is kept by the admin's configure (fresh_window, configure_keeps_winv) *)
 Theorem C12_daily_limit : forall evs s,
-  wc_limit (wt_cache s) <> 0 -> wc_limit (wt_cache s) < 4294967295 ->
-  (forall ev, In ev evs -> 0 <= dollars (snd ev) < 4294967296) ->
+  wc_limit (wt_cache s) <> 0 -> wc_limit (wt_cache s) <= 4294967295 ->
   WInv s -> window_dollars (wt_window s) <= wc_limit (wt_cache s) ->
   WInv (wrun s evs) /\ window_dollars (wt_window (wrun s evs)) <= wc_limit (wt_cache s).
 Proof. exact daily_limit. Qed.
@@ -137,21 +111,6 @@ Proof. exact daily_limit. Qed.
 Theorem C12_daily_resets_spaced : forall evs s,
   RInv 86400 s -> spaced_by 86400 (wt_resets (wrun s evs)).
 Proof. exact daily_resets_spaced. Qed.
-
-(* findings: to_num::<u32>() wraps (key daily-limit-u32-wrap), saturating_add meets a limit of u32::MAX
-   (key daily-limit-u32-saturation) *)
-Theorem C12_daily_limit_wrap_refuted :
-  exists s now eq, wc_limit (wt_cache s) = 1000 /\ WInv s /\ window_dollars (wt_window s) = 0 /\
-    dollars eq = 4294967296 + 5 /\
-    update_withdrawn_equity (wt_cache s) eq now = Ok (mkWC 1000 5 (wc_last_reset (wt_cache s))) /\
-    window_dollars (wt_window (wstep s (now, eq))) > 1000.
-Proof. exact daily_limit_wrap_refuted. Qed.
-
-Theorem C12_daily_limit_saturation_refuted :
-  exists s evs, wc_limit (wt_cache s) = 4294967295 /\ WInv s /\ window_dollars (wt_window s) = 0 /\
-    (forall ev, In ev evs -> 0 <= dollars (snd ev) < 4294967296) /\
-    window_dollars (wt_window (wrun s evs)) = 6000000000 /\ wc_withdrawn (wt_cache (wrun s evs)) = 4294967295.
-Proof. exact daily_limit_saturation_refuted. Qed.
 
 (* a successful deleverage transaction moves the group's window exactly by feeding its withdrawn equities,
    each accepted, through update_withdrawn_equity at the transaction's timestamp *)
@@ -177,6 +136,12 @@ Example C12_nonvacuous_frozen :
              bc_deposit_limit (cb_cfg (pb_c (px_bank w'))) = 5 /\ bc_init_limit (cb_cfg (pb_c (px_bank w'))) = 0.
 Proof. eexists. split; [vm_compute; reflexivity|]. split; reflexivity. Qed.
 
+(* a frozen bank with CLOSE_ENABLED (flags 24): the emissions admin turns both emissions flags on -> 27 *)
+Example C12_nonvacuous_emissions :
+  exists w', pstep wit_caps REmissionsAdmin (wit_world 24 1 (Some 0)) (PUpdateEmissions (Ok tt) 1 (Some 3) (Some 9) None) = Ok w' /\
+             pb_flags (px_bank w') = 27 /\ pb_em_rate (px_bank w') = 9.
+Proof. eexists. split; [vm_compute; reflexivity|]. split; reflexivity. Qed.
+
 (* limit 1000: $400 accepted, $700 refused (would be 1100), a day later $700 accepted in a new window *)
 Example C12_nonvacuous_window :
   let s := wrun (mkWT (mkWC 1000 0 1700000000) [] [])
@@ -189,21 +154,16 @@ Print Assumptions C12_limit_admin_frame.
 Print Assumptions C12_emode_admin_frame.
 Print Assumptions C12_metadata_admin_frame.
 Print Assumptions C12_risk_admin_frame.
-Print Assumptions C12_emissions_admin_frame_modulo_flags.
-Print Assumptions C12_emissions_admin_frame_restricted.
-Print Assumptions C12_emissions_update_foreign_flags_refuted.
-Print Assumptions C12_emissions_setup_clears_flags_refuted.
+Print Assumptions C12_emissions_admin_frame.
+Print Assumptions C12_emissions_foreign_flags_rejected.
+Print Assumptions C12_freeze_sticky.
 Print Assumptions C12_configure_touches_only_its_three_flags.
 Print Assumptions C12_frozen.
-Print Assumptions C12_freeze_sticky_restricted.
-Print Assumptions C12_freeze_sticky_refuted.
 Print Assumptions C12_unauthorized_signer_rejected.
 Print Assumptions C12_deleverage_health_not_worse.
 Print Assumptions C12_deleverage_bracket.
 Print Assumptions C12_deleverage_only_risk_admin.
 Print Assumptions C12_daily_limit.
 Print Assumptions C12_daily_resets_spaced.
-Print Assumptions C12_daily_limit_wrap_refuted.
-Print Assumptions C12_daily_limit_saturation_refuted.
 Print Assumptions C12_deleverage_tx_window.
 Print Assumptions C12_purge_guard.
